@@ -355,6 +355,155 @@ Theorem upstream_half_close_refuted :
    e_cl_eof e = Some true /\ e_ends e = Some true).
 Proof. repeat split; try reflexivity; cbv; discriminate. Qed.
 
+(* ---- liveness: under schedules that let both copiers run often enough the tunnel ends and
+        everything has been delivered ---- *)
+Definition is_c2u (d : dir) : bool := match d with C2U => true | U2C => false end.
+Definition nC (sched : list dir) : nat := length (filter is_c2u sched).
+Definition nU (sched : list dir) : nat := length (filter (fun d => negb (is_c2u d)) sched).
+
+(* steps still needed by a direction: one per chunk and one for the EOF *)
+Definition mc (s : hstate) : nat := match h_c_fin s with Some _ => O | None => S (length (h_c_todo s)) end.
+Definition mu (s : hstate) : nat := match h_u_fin s with Some _ => O | None => S (length (h_u_todo s)) end.
+
+(* both sides end their streams, both connections can be closed for writing *)
+Record good (s : hstate) : Prop := {
+  g_co : h_cw_out s = true; g_ci : h_cw_in s = true;
+  g_ce : h_c_eof s = true; g_ue : h_u_eof s = true;
+  g_fc : forall b, h_c_fin s = Some b -> b = true;
+  g_fu : forall b, h_u_fin s = Some b -> b = true
+}.
+
+Lemma good_not_ended_c s : good s -> h_c_fin s = None -> h_ended s = false.
+Proof.
+  intros G F. unfold h_ended. rewrite F. destruct (h_u_fin s) as [[|]|] eqn:E; try reflexivity.
+  pose proof (g_fu s G false E). discriminate.
+Qed.
+Lemma good_not_ended_u s : good s -> h_u_fin s = None -> h_ended s = false.
+Proof.
+  intros G F. unfold h_ended. rewrite F. destruct (h_c_fin s) as [[|]|] eqn:E; try reflexivity.
+  pose proof (g_fc s G false E). discriminate.
+Qed.
+
+Lemma hstep_good d s : good s -> good (hstep d s) /\
+  mc (hstep d s) = (if is_c2u d then pred (mc s) else mc s) /\
+  mu (hstep d s) = (if is_c2u d then mu s else pred (mu s)).
+Proof.
+  intros G. pose proof G as [Gco Gci Gce Gue Gfc Gfu]. unfold hstep.
+  destruct (h_ended s) eqn:E.
+  - (* ended: with two clean-only fins both directions are done *)
+    assert (Hc : h_c_fin s <> None) by (intros F; rewrite (good_not_ended_c s G F) in E; discriminate).
+    assert (Hu : h_u_fin s <> None) by (intros F; rewrite (good_not_ended_u s G F) in E; discriminate).
+    split; [exact G|]. unfold mc, mu.
+    destruct (h_c_fin s); [|contradiction]. destruct (h_u_fin s); [|contradiction].
+    destruct d; split; reflexivity.
+  - destruct d; cbn [is_c2u].
+    + destruct (h_c_fin s) as [b0|] eqn:F.
+      * split; [exact G|]. unfold mc, mu. rewrite F. split; reflexivity.
+      * destruct (h_c_todo s) as [|ch rest] eqn:T.
+        -- rewrite Gce. split; [constructor; hproj; try assumption; intros b Hb; inversion Hb; exact Gco|].
+           unfold mc, mu. hproj. rewrite F, T. split; reflexivity.
+        -- split; [constructor; hproj; try assumption; intros b Hb; discriminate Hb|].
+           unfold mc, mu. hproj. rewrite F, T. split; reflexivity.
+    + destruct (h_u_fin s) as [b0|] eqn:F.
+      * split; [exact G|]. unfold mc, mu. rewrite F. split; reflexivity.
+      * destruct (h_u_todo s) as [|ch rest] eqn:T.
+        -- rewrite Gue. split; [constructor; hproj; try assumption; intros b Hb; inversion Hb; exact Gci|].
+           unfold mc, mu. hproj. rewrite F, T. split; reflexivity.
+        -- split; [constructor; hproj; try assumption; intros b Hb; discriminate Hb|].
+           unfold mc, mu. hproj. rewrite F, T. split; reflexivity.
+Qed.
+
+Lemma hrun_good sched : forall s, good s -> good (hrun sched s) /\
+  mc (hrun sched s) = (mc s - nC sched)%nat /\ mu (hrun sched s) = (mu s - nU sched)%nat.
+Proof.
+  induction sched as [|d sched IH]; intros s G.
+  - unfold hrun, nC, nU. cbn [fold_left filter length]. split; [exact G|]. split; lia.
+  - destruct (hstep_good d s G) as [G1 [M1 M2]].
+    destruct (IH (hstep d s) G1) as [G2 [N1 N2]].
+    unfold hrun in *. cbn [fold_left]. split; [exact G2|].
+    rewrite N1, N2, M1, M2. unfold nC, nU. cbn [filter].
+    destruct d; cbn [is_c2u negb length]; split; lia.
+Qed.
+
+(* LIVENESS 1: both sides end their streams, both connections can be closed for writing: every
+   schedule that gives the client direction more than [length c] steps and the upstream
+   direction more than [length u] steps ends the tunnel, with every byte delivered both ways *)
+Theorem tunnel_fair_schedule_ends : forall sched c u,
+  (length c < nC sched)%nat -> (length u < nU sched)%nat ->
+  let s := hrun sched (hinit c true u true true true) in
+  h_ended s = true /\ h_c_done s = concat c /\ h_u_done s = concat u.
+Proof.
+  intros sched c u Hc Hu s.
+  assert (G0 : good (hinit c true u true true true)).
+  { constructor; cbn; try reflexivity; intros b Hb; discriminate Hb. }
+  destruct (hrun_good sched _ G0) as [G [M1 M2]]. fold s in G, M1, M2.
+  unfold mc, mu in M1, M2. cbn [hinit h_c_fin h_u_fin h_c_todo h_u_todo] in M1, M2.
+  assert (E : h_ended s = true).
+  { unfold h_ended. destruct (h_c_fin s) as [bc|] eqn:Fc; [|lia]. destruct (h_u_fin s) as [bu|] eqn:Fu; [|lia].
+    rewrite (g_fc s G bc Fc), (g_fu s G bu Fu). reflexivity. }
+  split; [exact E|]. apply (tunnel_end_all_delivered sched c true u true). exact E.
+Qed.
+
+(* LIVENESS 2: a half-closing client and an upstream that never closes ([ueof = false]): the
+   tunnel never ends, and every schedule with at least [length u] upstream steps has delivered
+   the whole reply *)
+Lemma hstep_open d s :
+  h_u_eof s = false -> h_u_fin s = None -> (forall b, h_c_fin s = Some b -> b = true) -> h_cw_out s = true ->
+  h_u_eof (hstep d s) = false /\ h_u_fin (hstep d s) = None /\ (forall b, h_c_fin (hstep d s) = Some b -> b = true) /\
+  h_cw_out (hstep d s) = true /\
+  length (h_u_todo (hstep d s)) = (if is_c2u d then length (h_u_todo s) else pred (length (h_u_todo s))) /\
+  h_u_done (hstep d s) ++ concat (h_u_todo (hstep d s)) = h_u_done s ++ concat (h_u_todo s).
+Proof.
+  intros Hue Hf Hc Hco. unfold hstep.
+  assert (E : h_ended s = false).
+  { unfold h_ended. rewrite Hf. destruct (h_c_fin s) as [[|]|] eqn:F; try reflexivity. pose proof (Hc false eq_refl). discriminate. }
+  rewrite E. destruct d; cbn [is_c2u].
+  - destruct (h_c_fin s) as [b0|] eqn:F; [repeat split; assumption|].
+    destruct (h_c_todo s) as [|ch rest].
+    + destruct (h_c_eof s); hproj; repeat split; try assumption; try (intros b Hb; inversion Hb; exact Hco); try (intros b Hb; discriminate Hb).
+    + hproj. repeat split; try assumption. intros b Hb; discriminate Hb.
+  - rewrite Hf. destruct (h_u_todo s) as [|ch rest] eqn:T.
+    + rewrite Hue. rewrite T. repeat split; assumption.
+    + hproj. repeat split; try assumption. cbn [concat]. now rewrite app_assoc.
+Qed.
+
+Theorem half_close_reply_delivered_live : forall sched c ceof u ci,
+  (length u <= nU sched)%nat ->
+  let s := hrun sched (hinit c ceof u false true ci) in
+  h_ended s = false /\ h_u_done s = concat u.
+Proof.
+  intros sched c ceof u ci.
+  set (s0 := hinit c ceof u false true ci).
+  assert (H0 : h_u_eof s0 = false /\ h_u_fin s0 = None /\ (forall b, h_c_fin s0 = Some b -> b = true) /\ h_cw_out s0 = true).
+  { subst s0. cbn. repeat split; try reflexivity. intros b Hb; discriminate Hb. }
+  assert (Hd : h_u_done s0 ++ concat (h_u_todo s0) = concat u) by reflexivity.
+  assert (Hl : length (h_u_todo s0) = length u) by reflexivity.
+  clearbody s0. revert s0 H0 Hd Hl. generalize (length u) as n.
+  induction sched as [|d sched IH]; intros n s0 [Hue [Hf [Hc Hco]]] Hd Hl Hn s.
+  - subst s. unfold hrun. cbn [fold_left]. unfold nU in Hn. cbn [filter length] in Hn.
+    assert (h_u_todo s0 = []) by (destruct (h_u_todo s0); [reflexivity | cbn [length] in Hl; lia]).
+    rewrite H in Hd. cbn [concat] in Hd. rewrite app_nil_r in Hd. split; [|exact Hd].
+    unfold h_ended. rewrite Hf. destruct (h_c_fin s0) as [[|]|] eqn:F; try reflexivity. pose proof (Hc false eq_refl). discriminate.
+  - destruct (hstep_open d s0 Hue Hf Hc Hco) as [A [B [C [D [L P]]]]].
+    subst s. unfold hrun. cbn [fold_left].
+    apply (IH (length (h_u_todo (hstep d s0))) (hstep d s0)); [repeat split; assumption | rewrite P; exact Hd | reflexivity |].
+    rewrite L. unfold nU in *. cbn [filter] in Hn. destruct d; cbn [is_c2u negb length] in *; lia.
+Qed.
+
+(* F-C09-7 (open): the accepted connection cannot be closed for writing only (the Conn of
+   go-proxyproto on listeners with pxyproto=true): the upstream half-closes - it is still
+   reading - and the tunnel ends at once with the client's remaining bytes undelivered; on the
+   scripted scenario the model's forced outcome allows that loss and the specification rejects it *)
+Theorem upstream_half_close_no_closewrite_refuted :
+  (let s := hrun [U2C; U2C; C2U] (hinit [[1; 2]%N; [3]%N] true [[7; 8]%N] true true false) in
+   h_ended s = true /\ h_u_fin s = Some false /\ h_u_done s = [7; 8]%N /\ h_c_done s = [] /\ h_c_done s <> [1; 2; 3]%N) /\
+  (let e := tunnel_expect [1; 2; 3]%N [7; 8]%N false false false CHalf UAtConnect UHalf in
+   region_upstream_half_close [1; 2; 3]%N false UAtConnect UHalf = true /\ e_up_lo e = 0%N /\ e_ends e = Some true /\
+   within [] (e_up e) (e_up_lo e) (nlen' (e_up e)) = true /\
+   spec_core [1; 2; 3]%N [7; 8]%N false CHalf UAtConnect UHalf [] [7; 8]%N = false /\
+   spec_core [1; 2; 3]%N [7; 8]%N false CHalf UAtConnect UHalf [1; 2; 3]%N [7; 8]%N = true).
+Proof. repeat split; try reflexivity; cbv; discriminate. Qed.
+
 (* ================= the unrepaired tunnel (before e0f2d05): the first finished direction ended it ================= *)
 
 Record tinv (C U : str) (s : tstate) : Prop := {
@@ -866,6 +1015,26 @@ Proof.
   - exists (concat rest). split; [apply copy_preserves_stream | exact H3].
 Qed.
 
+(* bytes the client sent together with its upgrade request (ws_handler.go since 66d5585): for
+   every split of the client's stream into what the http server had buffered and the rest, in any
+   segmentation, the upstream receives the whole stream in order *)
+Theorem ws_early_bytes_delivered : forall buffered rest,
+  ws_client_stream buffered rest = Ok (buffered ++ concat rest).
+Proof. intros. unfold ws_client_stream. rewrite copy_preserves_stream. reflexivity. Qed.
+
+(* F-C09-6 as it was before 66d5585: the hijacked reader was discarded *)
+Theorem ws_early_bytes_refuted : forall buffered rest, buffered <> [] ->
+  ws_client_stream_unrepaired buffered rest = Ok (concat rest) /\
+  ws_client_stream_unrepaired buffered rest <> Ok (buffered ++ concat rest) /\
+  ws_client_stream buffered rest = Ok (buffered ++ concat rest).
+Proof.
+  intros buffered rest Hb. unfold ws_client_stream_unrepaired. rewrite copy_preserves_stream.
+  split; [reflexivity|]. split; [|apply ws_early_bytes_delivered].
+  intros H. inversion H as [H1]. apply Hb.
+  apply (f_equal (@length N)) in H1. rewrite app_length in H1.
+  destruct buffered; [reflexivity | cbn [length] in H1; lia].
+Qed.
+
 Definition wit_reply_head : str := bs "HTTP/1.1 101 Switching Protocols"%string ++ [13; 10; 13; 10]%N.
 
 Example ws_head_with_payload_one_chunk :
@@ -885,7 +1054,7 @@ Theorem ws_split_101_refuted :
   ws_upgraded_unrepaired (firstn 10 wit_reply) = false /\
   exists e, scenario_expect KWs false [] [[1; 2]%N] 0 true false CStay UAtConnect wit_reply 10 (nlen' wit_reply) UStay = Ok e /\
     e_cl e = wit_reply /\ e_cl_lo e = nlen' wit_reply /\ e_up e = [1; 2]%N /\ e_up_lo e = 2%N /\
-    spec_b KWs false [] [1; 2]%N 0 true false CStay UAtConnect wit_reply UStay (e_up e) (e_cl e) false false = true.
+    spec_b KWs false [] [1; 2]%N false CStay UAtConnect wit_reply UStay (e_up e) (e_cl e) = true.
 Proof. repeat split; try (vm_compute; reflexivity). eexists. repeat split; vm_compute; reflexivity. Qed.
 
 (* an upstream that ends before 12 bytes have arrived: "error reading handshake", the client
@@ -905,14 +1074,14 @@ Proof. induction s as [|x s IH]; cbn [is_prefix]; [reflexivity|]. now rewrite N.
 Theorem half_close_scenario_delivered :
   exists e, scenario_expect KTcp false [] [[1; 2; 3]%N] 0 false false CHalf UOnEOF [7; 8]%N 0 0 UClose = Ok e /\
     e_up e = [1; 2; 3]%N /\ e_up_lo e = 3%N /\ e_cl e = [7; 8]%N /\ e_cl_lo e = 2%N /\ e_ends e = Some true /\
-    spec_b KTcp false [] [1; 2; 3]%N 0 false false CHalf UOnEOF [7; 8]%N UClose [1; 2; 3]%N [7; 8]%N true false = true /\
-    spec_b KTcp false [] [1; 2; 3]%N 0 false false CHalf UOnEOF [7; 8]%N UClose [1; 2; 3]%N [] true false = false.
+    spec_b KTcp false [] [1; 2; 3]%N false CHalf UOnEOF [7; 8]%N UClose [1; 2; 3]%N [7; 8]%N = true /\
+    spec_b KTcp false [] [1; 2; 3]%N false CHalf UOnEOF [7; 8]%N UClose [1; 2; 3]%N [] = false.
 Proof. eexists. repeat split; vm_compute; reflexivity. Qed.
 
 Example waiting_client_scenario :
   exists e, scenario_expect KTcp false [] [[1; 2; 3]%N] 0 true true CHalf (UAfterBytes 3) [7; 8]%N 0 0 UStay = Ok e /\
     e_up_lo e = 3%N /\ e_cl_lo e = 2%N /\
-    spec_b KTcp false [] [1; 2; 3]%N 0 true true CHalf (UAfterBytes 3) [7; 8]%N UStay [1; 2; 3]%N [7; 8]%N true true = true.
+    spec_b KTcp false [] [1; 2; 3]%N true CHalf (UAfterBytes 3) [7; 8]%N UStay [1; 2; 3]%N [7; 8]%N = true.
 Proof. eexists. repeat split; vm_compute; reflexivity. Qed.
 
 (* ================= fuel: the loops of the reader model terminate within the fuel supplied ================= *)
@@ -1234,21 +1403,20 @@ Definition eof_agree (e : expectation) (o_eof : bool) : bool :=
 
 (* interval semantics: any observation within the forced outcome's bounds satisfies the
    specification, outside the upstream-half-close-without-CloseWrite combination *)
-Theorem tunnel_expect_meets_spec : forall up reply cw_in cerr cwait ce ut ue o_up o_cl o_ended o_eof,
+Theorem tunnel_expect_meets_spec : forall up reply cw_in cerr cwait ce ut ue o_up o_cl,
   let e := tunnel_expect up reply cw_in cerr cwait ce ut ue in
   region_upstream_half_close up cw_in ut ue = false ->
   within o_up (e_up e) (e_up_lo e) (nlen' (e_up e)) = true ->
   is_prefix o_cl (e_cl e) = true -> (e_cl_lo e <= nlen' o_cl)%N ->
-  ends_agree e o_ended = true -> eof_agree e o_eof = true ->
-  spec_core up reply cw_in cerr cwait ce ut ue o_up o_cl o_ended o_eof = true.
+  spec_core up reply cwait ce ut ue o_up o_cl = true.
 Proof.
-  intros up reply cw_in cerr cwait ce ut ue o_up o_cl o_ended o_eof e Hr Hup Hcl Hlo Hen Hef.
+  intros up reply cw_in cerr cwait ce ut ue o_up o_cl e Hr Hup Hcl Hlo.
   destruct (tunnel_expect_streams up reply cw_in cerr cwait ce ut ue) as [_ [Eu Ec]]. fold e in Eu, Ec.
   rewrite Eu in Hup. rewrite Ec in Hcl. unfold within in Hup.
   apply andb_true_iff in Hup. destruct Hup as [Hup _]. apply andb_true_iff in Hup. destruct Hup as [Hpu Hlu].
   apply N.leb_le in Hlu.
   unfold spec_core. rewrite Hpu, Hcl. cbn [andb].
-  apply andb_true_iff. split; [apply andb_true_iff; split; [apply andb_true_iff; split|]|].
+  apply andb_true_iff. split.
   - destruct (spec_req_up (nlen' up) ut ue) eqn:Q; [|reflexivity].
     apply beq_eq. apply is_prefix_full; [exact Hpu|].
     pose proof (expect_up_complete up reply cw_in cerr cwait ce ut ue Hr Q) as L. fold e in L.
@@ -1257,12 +1425,6 @@ Proof.
     apply beq_eq. apply is_prefix_full; [exact Hcl|].
     pose proof (expect_cl_complete up reply cw_in cerr cwait ce ut ue Q) as L. fold e in L.
     unfold nlen' in *. lia.
-  - destruct (spec_req_ends (nlen' up) (nlen' reply) cwait ce ut) eqn:Q; [|reflexivity].
-    pose proof (expect_ends up reply cw_in cerr cwait ce ut ue Q) as L. fold e in L.
-    unfold ends_agree in Hen. rewrite L in Hen. destruct o_ended; [reflexivity | discriminate].
-  - destruct (spec_req_eof (nlen' up) (nlen' reply) cw_in cerr cwait ce ut ue) eqn:Q; [|reflexivity].
-    pose proof (expect_eof up reply cw_in cerr cwait ce ut ue Q) as L. fold e in L.
-    unfold eof_agree in Hef. rewrite L in Hef. destruct o_eof; [reflexivity | discriminate].
 Qed.
 
 Lemma has_prefix_firstn s p n : has_prefix s p = true -> (length p <= n)%nat -> has_prefix (firstn n s) p = true.
@@ -1294,30 +1456,29 @@ Qed.
    client bytes are still on their way behind a client connection without CloseWrite
    ([region_upstream_half_close]: the code ends the tunnel there, timing decides how much of the
    client's stream is cut; kept out of the generated domain); [ws_head_first]. *)
-Theorem scenario_meets_spec : forall k pp line segs fin cw_in cwait ce ut reply rseg1 whead ue e o_up o_cl o_ended o_eof,
+Theorem scenario_meets_spec : forall k pp line segs fin cw_in cwait ce ut reply rseg1 whead ue e o_up o_cl,
   scenario_expect k pp line segs fin cw_in cwait ce ut reply rseg1 whead ue = Ok e ->
   region_upstream_half_close (spec_upstream k pp line (concat segs)) cw_in ut ue = false ->
   ws_head_first k ut whead = true ->
   within o_up (e_up e) (e_up_lo e) (nlen' (e_up e)) = true ->
   within o_cl (e_cl e) (e_cl_lo e) (e_cl_hi e) = true ->
-  ends_agree e o_ended = true -> eof_agree e o_eof = true ->
-  spec_b k pp line (concat segs) fin cw_in cwait ce ut reply ue o_up o_cl o_ended o_eof = true.
+  spec_b k pp line (concat segs) cwait ce ut reply ue o_up o_cl = true.
 Proof.
-  intros k pp line segs fin cw_in cwait ce ut reply rseg1 whead ue e o_up o_cl o_ended o_eof He Rr Hw Hup Hcl Hen Hef.
+  intros k pp line segs fin cw_in cwait ce ut reply rseg1 whead ue e o_up o_cl He Rr Hw Hup Hcl.
   destruct (within_parts _ _ _ _ Hcl) as [Hclp Hcll].
   unfold spec_b.
   destruct k.
   - (* tcp *)
     cbn [tunnelled negb]. unfold scenario_expect in He. rewrite upstream_stream_f_eq, tcp_upstream_stream in He. cbn [bind] in He.
-    inversion He; subst e. cbn [spec_upstream] in *. eapply tunnel_expect_meets_spec; eassumption.
+    inversion He; subst e. cbn [spec_upstream] in *. apply (tunnel_expect_meets_spec _ _ cw_in (1 <? fin)%N); assumption.
   - (* tcp+sni *)
     unfold tunnelled. destruct (sni_route_name (concat segs)) as [[n [|c name]]|kk|] eqn:S; cbn [negb]; try reflexivity.
     unfold scenario_expect in He. rewrite upstream_stream_f_eq in He.
     rewrite (sni_upstream_stream_total pp line segs n (c :: name) S) in He by discriminate. cbn [bind] in He.
-    inversion He; subst e. eapply tunnel_expect_meets_spec; eassumption.
+    inversion He; subst e. apply (tunnel_expect_meets_spec _ _ cw_in (1 <? fin)%N); assumption.
   - (* tcp-dynamic *)
     cbn [tunnelled negb]. unfold scenario_expect in He. rewrite upstream_stream_f_eq, dynamic_upstream_stream in He. cbn [bind] in He.
-    inversion He; subst e. eapply tunnel_expect_meets_spec; eassumption.
+    inversion He; subst e. apply (tunnel_expect_meets_spec _ _ cw_in (1 <? fin)%N); assumption.
   - (* websocket *)
     unfold tunnelled. destruct (has_prefix reply ws_101) eqn:P; cbn [negb]; [|reflexivity].
     unfold scenario_expect in He.
@@ -1334,15 +1495,15 @@ Proof.
     destruct (ws_upgrade_any_segmentation useg) as [chunk [rest [R1 [R2 _]]]]; [rewrite Hu; exact P0|].
     rewrite R1 in He. cbn [bind] in He. rewrite R2 in He.
     rewrite copy_preserves_stream in He. cbn [bind] in He.
-    inversion He; subst e. clear He. unfold ends_agree in Hen. unfold eof_agree in Hef. cbn [e_up e_up_lo e_cl e_cl_lo e_cl_hi e_ends e_cl_eof] in *.
-    cbn [spec_upstream] in *. eapply tunnel_expect_meets_spec; try eassumption.
+    inversion He; subst e. clear He. cbn [e_up e_up_lo e_cl e_cl_lo e_cl_hi e_ends e_cl_eof] in *.
+    cbn [spec_upstream] in *. apply (tunnel_expect_meets_spec _ _ cw_in (1 <? fin)%N); try assumption.
     eapply N.le_trans; [apply N.le_max_r | exact Hcll].
 Qed.
 
 Example scenario_meets_spec_nonvacuous :
   exists e, scenario_expect KSni true [80; 32]%N [wit_hello ++ [1; 2]%N; [3]%N] 1 false false CHalf UOnEOF [7; 8]%N 0 0 UHalf = Ok e /\
     within ([80; 32]%N ++ wit_hello ++ [1; 2; 3]%N) (e_up e) (e_up_lo e) (nlen' (e_up e)) = true /\
-    within [7; 8]%N (e_cl e) (e_cl_lo e) (e_cl_hi e) = true /\ ends_agree e true = true /\ eof_agree e false = true /\
+    within [7; 8]%N (e_cl e) (e_cl_lo e) (e_cl_hi e) = true /\
     region_upstream_half_close (spec_upstream KSni true [80; 32]%N (wit_hello ++ [1; 2; 3]%N)) false UOnEOF UHalf = false.
 Proof. eexists. repeat split; vm_compute; reflexivity. Qed.
 
